@@ -182,6 +182,393 @@ theorem binND_sum (s : Nat) (dims : List Nat) (v : List K) (h : v.length = fineS
       rw [List.map_flatten, sum_flatten', List.map_map]; rfl
     rw [e1, hflat, ← sum_flatten', chunks_flatten _ _ _ h]
 
+/-! ### per-axis factors -/
+
+theorem fineSizes_cons (s n : Nat) (ss rest : List Nat) :
+    fineSizes (s :: ss) (n :: rest) = n * s * fineSizes ss rest := by
+  simp [fineSizes]
+
+theorem fineSizes_replicate (s : Nat) (dims : List Nat) :
+    fineSizes (dims.map fun _ => s) dims = fineSize s dims := by
+  induction dims with
+  | nil => rfl
+  | cons n rest ih => simp only [List.map_cons, fineSizes_cons, fineSize_cons, ih]
+
+theorem fineSizes_eq (ss dims : List Nat) (hl : ss.length = dims.length) :
+    fineSizes ss dims = size dims * ss.foldr (· * ·) 1 := by
+  induction dims generalizing ss with
+  | nil => cases ss with
+    | nil => simp [fineSizes, size]
+    | cons s ss => simp at hl
+  | cons n rest ih => cases ss with
+    | nil => simp at hl
+    | cons s ss =>
+      simp only [List.length_cons, Nat.add_right_cancel_iff] at hl
+      rw [fineSizes_cons, size_cons, ih ss hl, List.foldr_cons]; ring
+
+/-- one common factor is the special case of per-axis factors -/
+theorem binNDs_replicate (s : Nat) (dims : List Nat) (v : List K) :
+    binNDs (dims.map fun _ => s) dims v = binND s dims v := by
+  induction dims generalizing v with
+  | nil => rfl
+  | cons n rest ih =>
+    simp only [List.map_cons, binNDs, binND, fineSizes_replicate]
+    congr 1
+    funext g
+    exact ih _
+
+theorem binNDs_length (ss dims : List Nat) (hl : ss.length = dims.length) (v : List K)
+    (h : v.length = fineSizes ss dims) : (binNDs ss dims v).length = size dims := by
+  induction dims generalizing v ss with
+  | nil =>
+    cases ss with
+    | nil => simpa [binNDs, size, fineSizes] using h
+    | cons s ss => simp at hl
+  | cons n rest ih =>
+    cases ss with
+    | nil => simp at hl
+    | cons s ss =>
+    simp only [List.length_cons, Nat.add_right_cancel_iff] at hl
+    rw [fineSizes_cons] at h
+    have hrows := chunks_mem_length (fineSizes ss rest) (n * s) v h
+    have hgl : (chunks s n (chunks (fineSizes ss rest) (n * s) v)).length = n := chunks_length _ _ _
+    have hg : ∀ g ∈ chunks s n (chunks (fineSizes ss rest) (n * s) v), ∀ c ∈ g, c.length = fineSizes ss rest := by
+      intro g hg c hc
+      apply hrows
+      rw [← groups_rows_flatten s n _ v h]
+      exact List.mem_flatten.mpr ⟨g, hg, hc⟩
+    simp only [binNDs, size_cons, List.length_flatMap]
+    have : ∀ g ∈ chunks s n (chunks (fineSizes ss rest) (n * s) v),
+        (binNDs ss rest (vsum (fineSizes ss rest) g)).length = size rest := by
+      intro g hg'
+      exact ih ss hl _ (vsum_length _ _ (hg g hg'))
+    rw [List.map_congr_left this]
+    simp [hgl]
+
+theorem binNDs_sum (ss dims : List Nat) (hl : ss.length = dims.length) (v : List K)
+    (h : v.length = fineSizes ss dims) : (binNDs ss dims v).sum = v.sum := by
+  induction dims generalizing v ss with
+  | nil =>
+    cases ss with
+    | nil => simp [binNDs]
+    | cons s ss => simp at hl
+  | cons n rest ih =>
+    cases ss with
+    | nil => simp at hl
+    | cons s ss =>
+    simp only [List.length_cons, Nat.add_right_cancel_iff] at hl
+    rw [fineSizes_cons] at h
+    have hrows := chunks_mem_length (fineSizes ss rest) (n * s) v h
+    have hflat := groups_rows_flatten s n _ v h
+    have hg : ∀ g ∈ chunks s n (chunks (fineSizes ss rest) (n * s) v), ∀ c ∈ g, c.length = fineSizes ss rest := by
+      intro g hg c hc
+      apply hrows
+      rw [← hflat]
+      exact List.mem_flatten.mpr ⟨g, hg, hc⟩
+    simp only [binNDs, List.flatMap_def, sum_flatten', List.map_map]
+    have : ∀ g ∈ chunks s n (chunks (fineSizes ss rest) (n * s) v),
+        (List.sum ∘ fun g => binNDs ss rest (vsum (fineSizes ss rest) g)) g = (g.map List.sum).sum := by
+      intro g hg'
+      simp only [Function.comp]
+      rw [ih ss hl _ (vsum_length _ _ (hg g hg')), vsum_sum _ _ (hg g hg')]
+    rw [List.map_congr_left this]
+    have e1 : ((chunks s n (chunks (fineSizes ss rest) (n * s) v)).map fun g => (g.map List.sum).sum).sum
+        = ((chunks s n (chunks (fineSizes ss rest) (n * s) v)).flatten.map List.sum).sum := by
+      rw [List.map_flatten, sum_flatten', List.map_map]; rfl
+    rw [e1, hflat, ← sum_flatten', chunks_flatten _ _ _ h]
+
 end sums
+
+/-! ### the index map of binning -/
+
+section idx
+variable {α : Type}
+
+theorem chunks_getElem? (m k : Nat) (v : List α) (i : Nat) (hi : i < k) :
+    (chunks m k v)[i]? = some ((v.drop (i * m)).take m) := by
+  induction k generalizing v i with
+  | zero => omega
+  | succ k ih =>
+    cases i with
+    | zero => simp [chunks]
+    | succ i =>
+      simp only [chunks, List.getElem?_cons_succ]
+      rw [ih _ _ (by omega), List.drop_drop]
+      have : m + i * m = (i + 1) * m := by ring
+      rw [this]
+
+end idx
+
+section index
+variable {K : Type} [Field K]
+
+theorem take_drop_getD (v : List K) (a m f : Nat) (hf : f < m) :
+    ((v.drop a).take m).getD f 0 = v.getD (a + f) 0 := by
+  simp [List.getD_eq_getElem?_getD, List.getElem?_take, hf]
+
+theorem flatMap_getD_block {α : Type} (l : List α) (F : α → List K) (M : Nat)
+    (h : ∀ x ∈ l, (F x).length = M) (i j : Nat) (x : α) (hx : l[i]? = some x) (hj : j < M) :
+    (l.flatMap F).getD (i * M + j) 0 = (F x).getD j 0 := by
+  induction l generalizing i with
+  | nil => simp at hx
+  | cons y l ih =>
+    have hy : (F y).length = M := h y (by simp)
+    cases i with
+    | zero =>
+      simp only [List.getElem?_cons_zero, Option.some.injEq] at hx
+      subst hx
+      simp only [List.flatMap_cons, Nat.zero_mul, Nat.zero_add, List.getD_eq_getElem?_getD]
+      rw [List.getElem?_append_left (by omega)]
+    | succ i =>
+      simp only [List.getElem?_cons_succ] at hx
+      have := ih (fun x hx' => h x (by simp [hx'])) i hx
+      simp only [List.flatMap_cons, List.getD_eq_getElem?_getD] at this ⊢
+      rw [List.getElem?_append_right (by rw [hy]; nlinarith), hy]
+      have e : (i + 1) * M + j - M = i * M + j := by
+        have : (i + 1) * M = i * M + M := by ring
+        omega
+      rw [e, this]
+
+theorem vsum_getD (m : Nat) (g : List (List K)) (h : ∀ c ∈ g, c.length = m) (f : Nat) (hf : f < m) :
+    (vsum m g).getD f 0 = (g.map fun c => c.getD f 0).sum := by
+  induction g with
+  | nil => simp [vsum, vzero, List.getD_eq_getElem?_getD, hf]
+  | cons c g ih =>
+    have hc : c.length = m := h c (by simp)
+    have hl : ∀ c ∈ g, c.length = m := fun c hc' => h c (by simp [hc'])
+    have h1 := ih hl
+    have h2 := vsum_length m g hl
+    simp only [vsum] at h1 h2
+    simp only [vsum, List.foldr_cons, List.map_cons, List.sum_cons]
+    have : (vadd c (List.foldr vadd (vzero m) g)).getD f 0 = c.getD f 0 + (List.foldr vadd (vzero m) g).getD f 0 := by
+      simp [vadd, List.getD_eq_getElem?_getD, List.getElem?_zipWith,
+        List.getElem?_eq_getElem (show f < c.length by omega),
+        List.getElem?_eq_getElem (show f < (List.foldr vadd (vzero m) g).length by omega)]
+    rw [this, h1]
+
+theorem flatIdx_lt (dims c : List Nat) (h : InBounds dims c) : flatIdx dims c < size dims := by
+  induction dims generalizing c with
+  | nil => simp [flatIdx, size]
+  | cons n rest ih =>
+    obtain ⟨h0, h1⟩ := h
+    have := ih _ h1
+    simp only [flatIdx, size_cons]
+    calc c.headD 0 * size rest + flatIdx rest c.tail < c.headD 0 * size rest + size rest := by omega
+      _ = (c.headD 0 + 1) * size rest := by ring
+      _ ≤ n * size rest := Nat.mul_le_mul_right _ h0
+
+theorem boxSums_congr (dims ss c : List Nat) (hl : ss.length = dims.length) (hc : InBounds dims c) (get get' : Nat → K)
+    (h : ∀ f < fineSizes ss dims, get f = get' f) : boxSums dims ss c get = boxSums dims ss c get' := by
+  induction dims generalizing ss c get get' with
+  | nil => simpa [boxSums] using h 0 (by simp [fineSizes])
+  | cons n rest ih =>
+    cases ss with
+    | nil => simp at hl
+    | cons s ss =>
+    simp only [List.length_cons, Nat.add_right_cancel_iff] at hl
+    obtain ⟨h0, h1⟩ := hc
+    simp only [boxSums, List.headD_cons, List.tail_cons]
+    congr 1
+    apply List.map_congr_left
+    intro r0 hr0
+    have hr : r0 < s := List.mem_range.mp hr0
+    apply ih _ _ hl h1
+    intro f hf
+    apply h
+    rw [fineSizes_cons]
+    have h2 : c.headD 0 * s + r0 + 1 ≤ n * s := by
+      calc c.headD 0 * s + r0 + 1 ≤ c.headD 0 * s + s := by omega
+        _ = (c.headD 0 + 1) * s := by ring
+        _ ≤ n * s := Nat.mul_le_mul_right _ h0
+    calc (c.headD 0 * s + r0) * fineSizes ss rest + f < (c.headD 0 * s + r0) * fineSizes ss rest + fineSizes ss rest := by omega
+      _ = (c.headD 0 * s + r0 + 1) * fineSizes ss rest := by ring
+      _ ≤ n * s * fineSizes ss rest := Nat.mul_le_mul_right _ h2
+
+theorem boxSums_zero (dims ss c : List Nat) : boxSums dims ss c (fun _ => (0 : K)) = 0 := by
+  induction dims generalizing ss c with
+  | nil => simp [boxSums]
+  | cons n rest ih => simp [boxSums, ih]
+
+theorem boxSums_add (dims ss c : List Nat) (a b : Nat → K) :
+    boxSums dims ss c (fun f => a f + b f) = boxSums dims ss c a + boxSums dims ss c b := by
+  induction dims generalizing ss c a b with
+  | nil => simp [boxSums]
+  | cons n rest ih =>
+    simp only [boxSums, ih]
+    rw [List.sum_map_add]
+
+theorem boxSums_sum (dims ss c : List Nat) (l : List Nat) (h : Nat → Nat → K) :
+    boxSums dims ss c (fun f => (l.map fun r => h r f).sum) = (l.map fun r => boxSums dims ss c (h r)).sum := by
+  induction l with
+  | nil => simp [boxSums_zero]
+  | cons r l ih => simp only [List.map_cons, List.sum_cons, boxSums_add, ih]
+
+/-- the rows a group consists of -/
+theorem group_eq (s n m : Nat) (v : List K) (c0 : Nat) (h0 : c0 < n) :
+    ((chunks m (n * s) v).drop (c0 * s)).take s
+      = (List.range s).map fun r0 => (v.drop ((c0 * s + r0) * m)).take m := by
+  apply List.ext_getElem?
+  intro i
+  by_cases hi : i < s
+  · have h2 : c0 * s + i < n * s := by
+      calc c0 * s + i < c0 * s + s := by omega
+        _ = (c0 + 1) * s := by ring
+        _ ≤ n * s := Nat.mul_le_mul_right _ h0
+    simp [List.getElem?_take, hi, chunks_getElem? m (n * s) v _ h2]
+  · simp [List.getElem?_take, hi]
+
+/-- **index map of binning**: pixel `flatIdx dims c` of the binned array is the sum of the fine samples over
+the box of sub-pixels of `c` -/
+theorem binNDs_getD (dims ss c : List Nat) (hl : ss.length = dims.length) (hc : InBounds dims c) (v : List K)
+    (h : v.length = fineSizes ss dims) :
+    (binNDs ss dims v).getD (flatIdx dims c) 0 = boxSums dims ss c (fun f => v.getD f 0) := by
+  induction dims generalizing ss c v with
+  | nil =>
+    cases ss with
+    | nil => simp [binNDs, flatIdx, boxSums]
+    | cons s ss => simp at hl
+  | cons n rest ih =>
+    cases ss with
+    | nil => simp at hl
+    | cons s ss =>
+    simp only [List.length_cons, Nat.add_right_cancel_iff] at hl
+    obtain ⟨h0, h1⟩ := hc
+    rw [fineSizes_cons] at h
+    have hrows := chunks_mem_length (fineSizes ss rest) (n * s) v h
+    have hg : ∀ g ∈ chunks s n (chunks (fineSizes ss rest) (n * s) v), ∀ c ∈ g, c.length = fineSizes ss rest := by
+      intro g hg c hc
+      apply hrows
+      rw [← groups_rows_flatten s n _ v h]
+      exact List.mem_flatten.mpr ⟨g, hg, hc⟩
+    have hblk : ∀ g ∈ chunks s n (chunks (fineSizes ss rest) (n * s) v),
+        (binNDs ss rest (vsum (fineSizes ss rest) g)).length = size rest := by
+      intro g hg'
+      exact binNDs_length ss rest hl _ (vsum_length _ _ (hg g hg'))
+    have hget := chunks_getElem? s n (chunks (fineSizes ss rest) (n * s) v) (c.headD 0) h0
+    have hmem := List.mem_of_getElem? hget
+    simp only [binNDs, flatIdx, boxSums, List.headD_cons, List.tail_cons]
+    rw [flatMap_getD_block _ _ (size rest) hblk _ _ _ hget (flatIdx_lt rest c.tail h1),
+      ih ss c.tail hl h1 _ (vsum_length _ _ (hg _ hmem)), ← boxSums_sum]
+    apply boxSums_congr _ _ _ hl h1
+    intro f hf
+    rw [vsum_getD _ _ (hg _ hmem) f hf, group_eq s n _ v _ h0, List.map_map]
+    congr 1
+    apply List.map_congr_left
+    intro r0 _
+    simp only [Function.comp]
+    rw [take_drop_getD _ _ _ _ hf]
+
+/-- one common factor: pixel `flatIdx dims c` of `binND s dims v` -/
+theorem binND_getD (s : Nat) (dims c : List Nat) (hc : InBounds dims c) (v : List K)
+    (h : v.length = fineSize s dims) :
+    (binND s dims v).getD (flatIdx dims c) 0 = boxSums dims (dims.map fun _ => s) c (fun f => v.getD f 0) := by
+  rw [← binNDs_replicate, binNDs_getD dims _ c (by simp) hc v (by rw [fineSizes_replicate]; exact h)]
+
+end index
+
+/-! ### tensor fields: the single reshape -/
+
+section
+variable {α : Type}
+
+theorem chunks_one (k : Nat) (l : List α) (h : l.length = k) : chunks 1 k l = l.map fun x => [x] := by
+  induction k generalizing l with
+  | zero => simp at h; simp [chunks, h]
+  | succ k ih =>
+    cases l with
+    | nil => simp at h
+    | cons x l => simp at h; simp [chunks, ih l h]
+
+theorem chunks_take (m k : Nat) (v : List α) : chunks m k (v.take (k * m)) = chunks m k v := by
+  induction k generalizing v with
+  | zero => simp [chunks]
+  | succ k ih =>
+    simp only [chunks]
+    have e : (k + 1) * m = m + k * m := by ring
+    rw [e, List.take_take, List.drop_take]
+    congr 1
+    · congr 1; omega
+    · have : m + k * m - m = k * m := by omega
+      rw [this, ih]
+
+theorem chunks_add (m a b : Nat) (v : List α) :
+    chunks m (a + b) v = chunks m a v ++ chunks m b (v.drop (a * m)) := by
+  induction a generalizing v with
+  | zero => simp [chunks]
+  | succ a ih =>
+    have e : a + 1 + b = (a + b) + 1 := by omega
+    rw [e]
+    simp only [chunks, List.cons_append]
+    rw [ih, List.drop_drop]
+    congr 3
+    rw [Nat.add_mul, Nat.one_mul, Nat.add_comm]
+
+theorem chunks_chunks (M k T : Nat) (v : List α) :
+    (chunks (k * M) T v).flatMap (chunks M k) = chunks M (T * k) v := by
+  induction T generalizing v with
+  | zero => simp [chunks]
+  | succ T ih =>
+    simp only [chunks, List.flatMap_cons]
+    rw [ih, chunks_take]
+    have e : (T + 1) * k = k + T * k := by ring
+    rw [e, chunks_add]
+
+end
+
+section
+variable {K : Type} [Field K]
+
+theorem vadd_vzero_right (n : Nat) (a : List K) (h : a.length = n) : vadd a (vzero n) = a := by
+  induction a generalizing n with
+  | nil => simp [vadd]
+  | cons x a ih =>
+    cases n with
+    | zero => simp at h
+    | succ n =>
+      simp only [List.length_cons, Nat.add_right_cancel_iff] at h
+      have := ih n h
+      simp only [vadd, vzero] at this
+      simp [vadd, vzero, List.replicate_succ, this]
+
+/-- a leading axis with factor 1: the blocks along it are binned one by one -/
+theorem binNDs_one_cons (ss dims : List Nat) (T : Nat) (v : List K) (hv : v.length = T * fineSizes ss dims) :
+    binNDs (1 :: ss) (T :: dims) v = (chunks (fineSizes ss dims) T v).flatMap (binNDs ss dims) := by
+  simp only [binNDs, Nat.mul_one]
+  rw [chunks_one T _ (chunks_length _ _ _), List.flatMap_map]
+  apply List.flatMap_congr
+  intro row hrow
+  have := chunks_mem_length (fineSizes ss dims) T v hv row hrow
+  simp [vsum, vadd_vzero_right _ _ this]
+
+theorem fineSizes_ones_append (ss dims ts : List Nat) :
+    fineSizes (ts.map (fun _ => 1) ++ ss) (ts ++ dims) = size ts * fineSizes ss dims := by
+  induction ts with
+  | nil => simp [size]
+  | cons T ts ih => simp only [List.map_cons, List.cons_append, fineSizes_cons, ih, size_cons]; ring
+
+/-- **the single reshape with the tensor axes in front is component-wise binning** -/
+theorem binTensorL_eq (ss dims : List Nat) : ∀ (ts : List Nat) (v : List K),
+    v.length = size ts * fineSizes ss dims →
+    binTensorL ss dims ts v = (chunks (fineSizes ss dims) (size ts) v).flatMap (binNDs ss dims) := by
+  intro ts
+  induction ts with
+  | nil =>
+    intro v hv
+    simp only [size, List.foldr_nil, Nat.one_mul] at hv
+    simp [binTensorL, size, chunks, List.take_of_length_le (Nat.le_of_eq hv)]
+  | cons T ts ih =>
+    intro v hv
+    simp only [binTensorL, List.map_cons, List.cons_append] at ih ⊢
+    rw [size_cons] at hv ⊢
+    have hm := fineSizes_ones_append ss dims ts
+    rw [binNDs_one_cons _ _ T v (by rw [hm, hv]; ring), hm]
+    have : ∀ blk ∈ chunks (size ts * fineSizes ss dims) T v,
+        binNDs (ts.map (fun _ => 1) ++ ss) (ts ++ dims) blk
+          = (chunks (fineSizes ss dims) (size ts) blk).flatMap (binNDs ss dims) := by
+      intro blk hblk
+      exact ih blk (chunks_mem_length _ T v (by rw [hv]; ring) blk hblk)
+    rw [List.flatMap_congr this, ← List.flatMap_assoc, chunks_chunks]
+
+end
 
 end HcipyVerif.Binning
